@@ -307,7 +307,7 @@ class Indexing(Harness):
     def __init__(self, axis, B, P, auto):
         self.axis, self.B, self.P, self.auto = axis, B, P, auto
         self.name = "index.%s.B%dP%d.%s" % (axis, B, P, "auto" if auto else "cross")
-        self.bounds = "bins=%d patches=%d; every int index and contiguous slice chosen by the engine; symbolic contents" % (B, P)
+        self.bounds = "bins=%d patches=%d; every int index and contiguous slice and the closed side chosen by the engine; symbolic contents" % (B, P)
 
     def make_inputs(self, eng):
         d = {}
@@ -316,18 +316,19 @@ class Indexing(Harness):
         n = self.B if self.axis == "bins" else self.P
         sels = _selections(n)
         d["sel"] = eng.choose(len(sels), "selection")
+        d["closed"] = eng.choose(2, "closed")
         return d
 
     def concrete_inputs(self, m, inp):
         from vf.symx import concretise
 
-        out = concretise(m, {k: v for k, v in inp.items() if k != "sel"})
-        out["sel"] = inp["sel"]
+        out = concretise(m, {k: v for k, v in inp.items() if k not in ("sel", "closed")})
+        out["sel"], out["closed"] = inp["sel"], inp["closed"]
         return out
 
     def body(self, inp):
         B, P, auto = self.B, self.P, self.auto
-        binning = conc_binning(B)
+        binning = conc_binning(B, closed=("right", "left")[int(inp.get("closed", 0))])
         n = B if self.axis == "bins" else P
         sel = _selections(n)[int(inp["sel"])]
         idx = _idx(sel, n)
@@ -355,8 +356,11 @@ class Indexing(Harness):
             out.append(Check("sampleddata_bins_data", sb.data, fs.data[idx]))
             out.append(Check("sampleddata_bins_samples", sb.samples, fs.samples[:, idx]))
             out.append(Check("sampleddata_bins_binning", sb.binning.edges, exp_edges))
+            out.append(Check("sampleddata_bins_closed", cond=(sb.binning.closed == binning.closed)))
             bsub = binning[sel]
             out.append(Check("binning_getitem", bsub.edges, exp_edges))
+            out.append(Check("binning_getitem_closed", cond=(bsub.closed == binning.closed)))
+            out.append(Check("binning_iter_closed", cond=all(b.closed == binning.closed for b in binning)))
         else:
             sub_c, sub_w, sub_n, sub_cf = dd.counts.patches[sel], dd.sum_weights.patches[sel], dd.patches[sel], cf.patches[sel]
             expC, expW1, expW2 = C[:, idx][:, :, idx], W1[:, idx], W2[:, idx]
